@@ -530,9 +530,17 @@ func number(ts []T) []T {
 // ---------------------------------------------------------------- driver
 
 type job struct {
-	ID   int `json:"id"`
-	Tree []T `json:"tree"`
+	ID    int `json:"id"`
+	Limit int `json:"limit"`
+	Tree  []T `json:"tree"`
 }
+
+// outputLimit: the driver aborts a render (write error) once it has produced
+// this many bytes - 8 times the size of the structure notation of the correct
+// output plus slack, i.e. well above the correct output (a marker element is
+// at most ~4 times as long as its notation) - so that a block that ends up
+// rendering itself is cut short instead of overflowing the stack.
+func outputLimit(f []T) int { return 8*len(expected(f)) + 1024 }
 
 type result struct {
 	ID  int    `json:"id"`
@@ -550,6 +558,9 @@ type engine struct {
 // eval returns the rendered structure of canonical forests, rendering only
 // those not seen before.
 func (e *engine) eval(fs [][]T) []string {
+	if len(e.cache) > 600000 { // bound memory; the cache is only a speed-up
+		e.cache = map[string]string{}
+	}
 	var todo [][]T
 	var todoKeys []string
 	seen := map[string]bool{}
@@ -633,7 +644,7 @@ func (e *engine) runPart(forests [][]T, part []int, res []string) {
 	var in bytes.Buffer
 	enc := json.NewEncoder(&in)
 	for _, i := range part {
-		_ = enc.Encode(job{ID: i, Tree: forests[i]})
+		_ = enc.Encode(job{ID: i, Limit: outputLimit(forests[i]), Tree: forests[i]})
 	}
 	rr := corpus.Run(e.bin, nil, in.Bytes(), nil, e.p.Dir, 10*time.Minute)
 	got := map[int]bool{}
@@ -705,6 +716,8 @@ func (e *engine) shrinkAll(failing [][]T, obsFailing []string) (min [][]T, obs [
 		cur[key(f)] = f
 	}
 	dbg("blame slices that still fail: %d of %d; distinct %d", sliced, len(failing), len(cur))
+	cur = capBySignature(cur)
+	dbg("after the per-signature cap: %d", len(cur))
 	done := map[string][]T{}
 	for round := 0; len(cur) > 0 && round < 400; round++ {
 		dbg("shrink round %d: %d forests", round, len(cur))
@@ -766,6 +779,55 @@ func (e *engine) shrinkAll(failing [][]T, obsFailing []string) (min [][]T, obs [
 	return min, obs
 }
 
+// signature groups failing trees that look alike (same set of kinds); only
+// the perSignature smallest of a group are reduced, which bounds the work when
+// a defect makes almost every tree fail, while every distinct kind of failure
+// is still reduced and reported.
+const perSignature = 20
+
+func capBySignature(cur map[string][]T) map[string][]T {
+	groups := map[string][]string{}
+	for k, f := range cur {
+		kinds := map[string]bool{}
+		var walk func(ts []T)
+		walk = func(ts []T) {
+			for _, t := range ts {
+				kinds[t.K] = true
+				walk(t.Args)
+				walk(t.Kids)
+			}
+		}
+		walk(f)
+		var ks []string
+		for x := range kinds {
+			ks = append(ks, x)
+		}
+		sort.Strings(ks)
+		sig := strings.Join(ks, ",")
+		if count(f) > 6 { // big (unsliced) trees: their kind sets are all different
+			sig = "big"
+		}
+		groups[sig] = append(groups[sig], k)
+	}
+	out := map[string][]T{}
+	for _, ks := range groups {
+		sort.Slice(ks, func(a, b int) bool {
+			ca, cb := count(cur[ks[a]]), count(cur[ks[b]])
+			if ca != cb {
+				return ca < cb
+			}
+			return ks[a] < ks[b]
+		})
+		if len(ks) > perSignature {
+			ks = ks[:perSignature]
+		}
+		for _, k := range ks {
+			out[k] = cur[k]
+		}
+	}
+	return out
+}
+
 func dbg(f string, a ...any) {
 	if os.Getenv("VERIF_DEBUG") != "" {
 		fmt.Fprintf(os.Stderr, "[c13 %s] "+f+"\n", append([]any{time.Now().Format("15:04:05")}, a...)...)
@@ -775,7 +837,7 @@ func dbg(f string, a ...any) {
 // ---------------------------------------------------------------- check
 
 // reducedKinds is the kind set used for the largest exhaustive size.
-var reducedKinds = []string{"slot-", "slot+", "ign+", "twice-", "pass-", "once-", "once+", "flush-", "flush+", "fnign+", "fnget-", "join+"}
+var reducedKinds = []string{"slot-", "slot+", "ign+", "twice-", "twice+", "pass-", "after+", "inner+", "once-", "once+", "oncec+", "flush-", "flush+", "fnign+", "fnget-", "fnget+", "join+", "fnwith+"}
 
 // Run is the C13 check.
 func Run(c *core.Ctx) {
@@ -798,61 +860,71 @@ func Run(c *core.Ctx) {
 		return
 	}
 
-	var forests [][]T
+	var failing [][]T
+	var failingObs []string
+	maxNodes, nontriv, total := 0, 0, 0
+	// process evaluates one batch of forests and collects the failing ones.
+	process := func(forests [][]T) {
+		for i := range forests {
+			forests[i] = canon(forests[i])
+		}
+		got := e.eval(forests)
+		total += len(forests)
+		dbg("rendered %d", total)
+		for i, f := range forests {
+			c.Eval(1)
+			if strings.HasPrefix(got[i], "INCONCLUSIVE") {
+				c.Inconclusive("watchdog while rendering " + key(f))
+				continue
+			}
+			if n := count(f); n > maxNodes {
+				maxNodes = n
+			}
+			if nontrivial(f) {
+				nontriv++
+				c.NontrivialStr(key(f))
+				if nontriv%40000 == 1 {
+					c.Sample(map[string]any{"tree": key(f), "structure": got[i]})
+				}
+			}
+			if got[i] != expected(f) {
+				failing = append(failing, f)
+				failingObs = append(failingObs, got[i])
+			}
+		}
+	}
 	exh := 0
-	maxAll := 3
-	for n := 1; n <= maxAll; n++ {
+	for n := 1; n <= 3; n++ {
 		fs := enumerate(n, allKinds)
 		c.Set(fmt.Sprintf("exhaustive_trees_%d_nodes_all_kinds", n), len(fs))
-		forests = append(forests, fs...)
+		exh += len(fs)
+		process(fs)
 	}
 	if !c.Quick() {
 		fs := enumerate(4, reducedKinds)
 		c.Set("exhaustive_trees_4_nodes_reduced_kinds", len(fs))
-		forests = append(forests, fs...)
+		exh += len(fs)
+		process(fs)
 	}
-	exh = len(forests)
 	r := c.Rand("trees")
-	nr := c.Pick(30000, 400000)
-	for i := 0; i < nr; i++ {
-		b := 4 + r.Intn(24)
-		f := randomForest(r, &b, 1+r.Intn(6))
-		forests = append(forests, f)
-	}
-	for i := range forests {
-		forests[i] = canon(forests[i])
+	nr := c.Pick(100000, 4000000)
+	const batchSize = 250000
+	for done := 0; done < nr; {
+		n := batchSize
+		if nr-done < n {
+			n = nr - done
+		}
+		batch := make([][]T, 0, n)
+		for i := 0; i < n; i++ {
+			b := 4 + r.Intn(24)
+			batch = append(batch, randomForest(r, &b, 1+r.Intn(6)))
+		}
+		process(batch)
+		done += n
 	}
 	c.Set("exhaustive_trees", exh)
 	c.Set("random_trees", nr)
 	c.Set("kinds", len(allKinds))
-
-	dbg("built; %d forests", len(forests))
-	got := e.eval(forests)
-	dbg("rendered")
-	var failing [][]T
-	var failingObs []string
-	maxNodes, nontriv := 0, 0
-	for i, f := range forests {
-		c.Eval(1)
-		if strings.HasPrefix(got[i], "INCONCLUSIVE") {
-			c.Inconclusive("watchdog while rendering " + key(f))
-			continue
-		}
-		if n := count(f); n > maxNodes {
-			maxNodes = n
-		}
-		if nontrivial(f) {
-			nontriv++
-			c.NontrivialStr(key(f))
-			if nontriv%5000 == 1 {
-				c.Sample(map[string]any{"tree": key(f), "structure": got[i]})
-			}
-		}
-		if got[i] != expected(f) {
-			failing = append(failing, f)
-			failingObs = append(failingObs, got[i])
-		}
-	}
 	c.Set("max_nodes", maxNodes)
 	c.Set("failing_trees_before_reduction", len(failing))
 	dbg("failing %d", len(failing))
@@ -860,6 +932,7 @@ func Run(c *core.Ctx) {
 		return
 	}
 	min, obs := e.shrinkAll(failing, failingObs)
+	c.Set("reduction_cap_per_signature", perSignature)
 	c.Set("canonical_witnesses", len(min))
 	for i, f := range min {
 		want := expected(f)
